@@ -34,6 +34,10 @@ import (
 type graph struct {
 	N        int
 	Versions map[int][][]int // id -> versions -> referenced relation ids; absent = no history
+	// Ways: id -> version index -> refs of WAY members of that version, placed
+	// before the relation members. A way member whose ref equals a relation id is
+	// not a reference to that relation (member references are typed).
+	Ways map[int][][]int
 }
 
 func (g graph) String() string {
@@ -42,6 +46,10 @@ func (g graph) String() string {
 		vs, ok := g.Versions[id]
 		if !ok {
 			parts = append(parts, fmt.Sprintf("%d:-", id))
+			continue
+		}
+		if ws, ok := g.Ways[id]; ok {
+			parts = append(parts, fmt.Sprintf("%d:%v+ways%v", id, vs, ws))
 			continue
 		}
 		parts = append(parts, fmt.Sprintf("%d:%v", id, vs))
@@ -74,7 +82,14 @@ func (d *ds) RelationHistory(_ context.Context, id osm.RelationID) (osm.Relation
 	var out osm.Relations
 	for i, refs := range vs {
 		r := &osm.Relation{ID: id, Version: i + 1, Visible: true, Timestamp: time.Unix(int64(1000*(i+1)), 0)}
-		r.Members = append(r.Members, osm.Member{Type: osm.TypeNode, Ref: int64(refs0(refs))}, osm.Member{Type: osm.TypeWay, Ref: 2})
+		if ws, ok := d.g.Ways[int(id)]; ok {
+			// typed variant: only the listed way members, then the relation members
+			for _, w := range ws[i] {
+				r.Members = append(r.Members, osm.Member{Type: osm.TypeWay, Ref: int64(w), Role: "w"})
+			}
+		} else {
+			r.Members = append(r.Members, osm.Member{Type: osm.TypeNode, Ref: int64(refs0(refs))}, osm.Member{Type: osm.TypeWay, Ref: 2})
+		}
 		for _, ref := range refs {
 			r.Members = append(r.Members, osm.Member{Type: osm.TypeRelation, Ref: int64(ref), Role: "sub"})
 		}
@@ -448,7 +463,7 @@ func requestLists(n int, maxLen int) [][]int {
 
 func main() {
 	kit.Main("C14", "model_checking", func(r *kit.Run) {
-		r.Rule("(B) every relation graph on n ids (each id: no history, one version over every member subset, id 1 also every two-version history) x request lists up to the tier's length, drained under the default schedule; " +
+		r.Rule("(B) every relation graph on n ids (each id: no history, one version over every member subset, id 1 also every two-version history) x request lists up to the tier's length, plus a typed family (id 1 with two versions over every ordered list of <= 2 way/relation members on refs 1..3), drained under the default schedule; " +
 			"(A) 7 fixed graphs x every stop point k x {Close, cancel from consumer, cancel from a second thread, datasource error at call k+1} x every schedule with <= D deviations, both priority configurations; " +
 			"distinct_nontrivial counts distinct complete operation sequences plus distinct observed outcomes; states = execution-tree nodes, transitions = visible operations executed")
 		r.Assume("annotate/order.go as rewritten by tools/vinst (channel ops, select, go, WaitGroup, context) behaves like the original under a sequentially consistent scheduler")
@@ -481,6 +496,71 @@ func main() {
 				}
 			}})
 		}
+		// typed family: id 1 has two versions whose member lists are every ordered
+		// list of <= 2 members over refs {1,2,3} x {way, relation}; ids 2 and 3 have
+		// one version over every relation subset (or no history). A member that keeps
+		// its number and changes its type between versions must be seen as a change.
+		typedReqs := [][]int{{1}, {1, 2}, {1, 3}, {2, 1}, {3, 1}, {1, 2, 3}, {3, 2, 1}, {9, 1}}
+		type tm struct {
+			way bool
+			ref int
+		}
+		var lists [][]tm
+		lists = append(lists, nil)
+		for _, w1 := range []bool{false, true} {
+			for r1 := 1; r1 <= 3; r1++ {
+				lists = append(lists, []tm{{w1, r1}})
+				for _, w2 := range []bool{false, true} {
+					for r2 := 1; r2 <= 3; r2++ {
+						lists = append(lists, []tm{{w1, r1}, {w2, r2}})
+					}
+				}
+			}
+		}
+		split := func(l []tm) (rels, ways []int) {
+			rels, ways = []int{}, []int{}
+			for _, m := range l {
+				if m.way {
+					ways = append(ways, m.ref)
+				} else {
+					rels = append(rels, m.ref)
+				}
+			}
+			return
+		}
+		others := histories(3, false)
+		if r.Quick() {
+			// ids 2 and 3: no history, a version without members, a version pointing at 3 / at 1
+			others = [][][]int{nil, {{}}, {{3}}, {{1}}}
+		}
+		ntyped := 0
+		for a := range lists {
+			a := a
+			gens = append(gens, vexplore.Generator{Name: fmt.Sprintf("typed members, first version list %d", a), Gen: func(yield func(*vexplore.Scenario)) {
+				for b := range lists {
+					r1, w1 := split(lists[a])
+					r2, w2 := split(lists[b])
+					for _, h2 := range others {
+						for _, h3 := range others {
+							g := graph{N: 3, Versions: map[int][][]int{1: {r1, r2}}, Ways: map[int][][]int{1: {w1, w2}}}
+							if h2 != nil {
+								g.Versions[2] = h2
+							}
+							if h3 != nil {
+								g.Versions[3] = h3
+							}
+							for _, rq := range typedReqs {
+								sc := drainScenario(g, rq)
+								sc.Family = "drain-typed"
+								yield(&sc)
+							}
+						}
+					}
+				}
+			}})
+			ntyped += len(lists) * len(others) * len(others)
+		}
+		r.Set("typed_graphs", ntyped)
 		r.Set("graphs", ngraphs)
 		r.Set("request_lists", len(reqs))
 		fixed := []struct {
@@ -488,13 +568,13 @@ func main() {
 			g    graph
 			req  []int
 		}{
-			{"chain", graph{3, map[int][][]int{1: {{2}}, 2: {{3}}, 3: {{}}}}, []int{1}},
-			{"diamond", graph{4, map[int][][]int{1: {{2, 3}}, 2: {{4}}, 3: {{4}}, 4: {{}}}}, []int{1}},
-			{"two-cycle", graph{2, map[int][][]int{1: {{2}}, 2: {{1}}}}, []int{1, 2}},
-			{"self-loop", graph{2, map[int][][]int{1: {{1, 2}}, 2: {{}}}}, []int{1}},
-			{"missing-child", graph{3, map[int][][]int{1: {{2, 3}}, 3: {{}}}}, []int{1, 2}},
-			{"two-versions", graph{3, map[int][][]int{1: {{2}, {3}}, 2: {{}}, 3: {{}}}}, []int{3, 1}},
-			{"flat", graph{3, map[int][][]int{1: {{}}, 2: {{}}, 3: {{}}}}, []int{1, 2, 3}},
+			{"chain", graph{N: 3, Versions: map[int][][]int{1: {{2}}, 2: {{3}}, 3: {{}}}}, []int{1}},
+			{"diamond", graph{N: 4, Versions: map[int][][]int{1: {{2, 3}}, 2: {{4}}, 3: {{4}}, 4: {{}}}}, []int{1}},
+			{"two-cycle", graph{N: 2, Versions: map[int][][]int{1: {{2}}, 2: {{1}}}}, []int{1, 2}},
+			{"self-loop", graph{N: 2, Versions: map[int][][]int{1: {{1, 2}}, 2: {{}}}}, []int{1}},
+			{"missing-child", graph{N: 3, Versions: map[int][][]int{1: {{2, 3}}, 3: {{}}}}, []int{1, 2}},
+			{"two-versions", graph{N: 3, Versions: map[int][][]int{1: {{2}, {3}}, 2: {{}}, 3: {{}}}}, []int{3, 1}},
+			{"flat", graph{N: 3, Versions: map[int][][]int{1: {{}}, 2: {{}}, 3: {{}}}}, []int{1, 2, 3}},
 		}
 		nStop := 0
 		for _, f := range fixed {
